@@ -15,6 +15,24 @@ class Scratch:
     def close(self):
         shutil.rmtree(self.dir, ignore_errors=True)
 
+    def run_stdin(self, draft, schema, instance_text):
+        """The instance handed over on standard input (no -i)."""
+        from jsonschema import cli
+        self.n += 1
+        sp = os.path.join(self.dir, "s%d.json" % self.n)
+        with open(sp, "w") as f:
+            json.dump(schema, f)
+        out, err = io.StringIO(), io.StringIO()
+        try:
+            code = cli.run(cli.parse_args(["-V", "jsonschema.Draft%dValidator" % draft, sp]), stdout=out, stderr=err, stdin=io.StringIO(instance_text))
+        except BaseException as e:
+            code = "exc:%s: %s" % (type(e).__name__, str(e)[:80])
+        try:
+            os.remove(sp)
+        except OSError:
+            pass
+        return code, err.getvalue()
+
     def run(self, draft, schema, instances, extra_args=()):
         """-> (exit status or 'exc:Name', stderr text).  Raises ValueError when something is not JSON-serialisable."""
         from jsonschema import cli
